@@ -525,8 +525,9 @@ pub fn parse_choice_text(input: &str) -> Result<ParsedChoiceText, CompilerError>
         has_choice_only_content: false,
         inline_target,
         inline_body_nodes: Vec::new(),
+        // without brackets the whole line is shown again when the choice is taken, tags included
+        selected_tags: start_tags.clone(),
         start_tags,
         choice_only_tags: Vec::new(),
-        selected_tags: Vec::new(),
     })
 }
